@@ -57,7 +57,7 @@ def _validate(ctx, module, chunks, jobs, boundary):
                 ctx.traces += 1
                 key = ("sym", rec["N"], rec["R"], rec["span"], rec["maxDelta"], rec["mash"], rec["tofMash"], rec["nppr1024"], rec["oz1024"], tuple(rec["eff"]))
                 if rec["id"] % 61 == 1:
-                    ctx.sample({k: rec[k] for k in ("e", "N", "R", "span", "maxDelta", "mash", "tofMash", "zmax", "nppr1024", "sw", "eff")})
+                    ctx.sample({k: rec[k] for k in ("e", "geom", "N", "R", "span", "maxDelta", "mash", "tofMash", "zmax", "nppr1024", "sw", "eff")}, cap=3)
             elif e == "Sym":
                 ctx.nontrivial(str(key) + rec["op"])
             elif e == "Config":
@@ -65,7 +65,7 @@ def _validate(ctx, module, chunks, jobs, boundary):
             elif e == "New":
                 ctx.traces += 1
                 key = ("rows", fam, tuple(rec["sw"]), rec["cacheOn"], rec["basicOnly"])
-                if ctx.traces % 53 == 0:
+                if ctx.traces % 53 == 0 or len(ctx.samples) < 4:
                     ctx.sample({"e": "New", "family": fam, "sw": rec["sw"], "cacheOn": rec["cacheOn"], "basicOnly": rec["basicOnly"]})
             elif e in ("Get", "SetUp", "Clear"):
                 ctx.nontrivial(str(key) + e + str(len(rec.get("hooks", []))) + str(rec.get("gid", "")))
